@@ -226,6 +226,7 @@ def run_impl(case, variant: int = 0) -> str:
 INTS = [0, 1, -1, 2, -2, 3, -3, 5, -5, 6, -6, 7, -7, 10, -10, 12, -12, 15, -15, 25, -25, 35, 100, -100,
         12345, -12345, 10**9 + 1, -(10**9) - 1, 10**18 - 1, 2**63 - 1, -2**63, 2**63 + 1, 2**64 + 1,
         10**20, -(10**20) - 7, 10**27 + 5, 10**30 + 15]
+HUGE_INTS = [10**400, -(10**400) - 3, 2**1024, 2**1024 - 1, -(2**1024), 2**1023 * 3 // 2, 10**308 * 18, 7 * 10**350 + 1]
 DBLS = [1.0, -1.0, 2.0, -2.0, 3.0, -3.0, 0.5, -0.5, 1.5, -1.5, 2.5, -2.5, 3.5, -3.5, 6.5, -6.5, 4.0, -4.0,
         6.0, -6.0, 7.0, -7.0, 0.25, -0.75, 0.1, -0.1, 0.4, -0.4, 0.49999999999999994, -0.49999999999999994,
         1e300, -1e300, 5e-324, -5e-324, 2.0**53, 2.0**53 + 2, -(2.0**52) - 0.5, 4503599627370497.5,
@@ -238,6 +239,8 @@ F32_UNSAFE = [1.1, -2.2, 0.1, 16777217.0, 1e-30, 123.456, 3e38]
 
 def gen_int(rng) -> int:
     r = rng.random()
+    if r < 0.03:
+        return rng.choice(HUGE_INTS)       # beyond the xs:double range: math.isinf / float(int) overflow
     if r < 0.55:
         return rng.choice(INTS)
     if r < 0.85:
@@ -392,6 +395,8 @@ def gen_case(rng, ver=None):
                 p = rng.choice([-30, -6, 5, 9, 17, 26, 30, 400])
     if ver == '10':
         def fix10(v):
+            if v is not None and v[0] == 'i' and abs(v[1]) >= 2**1000:
+                return ('i', v[1] % 10**30)
             if v is not None and v[0] == 'd' and len(str(abs(v[1]))) > 28:
                 return ('d', v[1] % 10**20, v[2])   # '-x' is the unary minus of a literal: keep it inside the context
             return v
@@ -452,6 +457,9 @@ CORPUS = [
     C('20', 'div', ('d', 1, 0), ('i', 3)), C('20', 'mul', ('d', 10**21 + 1, 0), ('d', 12345678901, 3)),     # decimal context
     C('20', 'add', ('d', 10**28 + 5, 0), ('d', 5, 1)), C('20', 'sub', ('i', 10**30 + 15), ('d', 5, 1)),
     C('20', 'neg', ('d', 10**28 + 5, 0)), C('20', 'mod', ('d', 10**29 + 7, 0), ('d', 3, 0)),
+    C('20', 'idiv', ('i', 10**400), ('i', 3)), C('20', 'idiv', ('i', 10**400), D(2.0)), C('20', 'mod', ('i', 10**400), D(2.0)),
+    C('20', 'mod', D(2.0), ('i', 10**400)), C('20', 'floor', ('i', 10**400)), C('20', 'mod', ('d', 15, 1), ('i', 10**400)),
+    C('20', 'div', ('i', 10**400), D(0.0)), C('20', 'mod', ('i', 10**400), ('d', 3, 0)), C('20', 'add', ('i', 2**1024), D(1.0)),
     C('20', 'sub', D(0.0), D(0.0)), C('20', 'mul', D(-0.0), ('i', 5)), C('20', 'mul', ('d', 15, 1), ('i', 2 ** 63 - 1)),
 ]
 
@@ -479,8 +487,8 @@ def compare(run: Run, cases: list, stats=True) -> None:
         if stats:
             st.count(f'api:{("select", "shared-parser-token-twice", "Selector-twice")[variant]}')
         tags = [f for f in flags if f in FINDING_IDS]
-        if 'F06c' in tags and spec_i is not None and impl != spec_i and impl != spec and 'F06t' not in tags \
-                and 'F06p' not in tags:
+        if 'F06c' in tags and 'fhyp' in flags and spec_i is not None and impl != spec_i and impl != spec \
+                and 'F06t' not in tags and 'F06p' not in tags:
             # F06c covers the *rounding* of xs:float only: the result must still be the F&O result computed
             # with binary64 rounding + clamp (theorem float_ops_eq_spec_up_to_rounding); otherwise it is a
             # dispatch/type defect and must be reported
@@ -507,7 +515,7 @@ def compare(run: Run, cases: list, stats=True) -> None:
             if not (impl.startswith('i:') or impl == 'ERR:FOAR0002'):
                 run.disagree(Disagreement(cj, impl, model, spec, what='idiv-big-kind', site=site, tags=tags))
             continue
-        spec_cmp = None if 'idef' in flags else spec
+        spec_cmp = None if ('idef' in flags or 'ovf' in flags) else spec
         if spec_cmp is not None and impl != spec_cmp:
             run.disagree(Disagreement(cj, impl, model, spec, what='value', site=site, tags=tags))
             if tags and impl != model:      # inside a finding region the model must still mirror the code
@@ -588,6 +596,31 @@ def correspond(run: Run) -> None:
     for i in range(0, len(cases), 5000):
         compare(run, cases[i:i + 5000])
     run.log(f'correspondence done: {len(cases)} cases')
+
+
+EMPTY_EXPECT = [("() + 1", 'EMPTY'), ("1 + ()", 'EMPTY'), ("() - 2.5", 'EMPTY'), ("() * 2e0", 'EMPTY'), ("2 div ()", 'EMPTY'),
+                ("() mod 2", 'EMPTY'), ("5 mod ()", 'EMPTY'), ("-()", 'EMPTY'), ("+()", 'EMPTY'), ("abs(())", 'EMPTY'),
+                ("round(())", 'EMPTY'), ("floor(())", 'EMPTY'), ("ceiling(())", 'EMPTY'),
+                ("round-half-to-even((), 2)", 'EMPTY'),
+                # F&O: empty; the code raises the static-typing error XPST0005, which XPath permits for an
+                # expression whose static type is empty-sequence() (pinned by the repository's tests)
+                ("() idiv 2", 'ERR:XPST0005'), ("2 idiv ()", 'ERR:XPST0005')]
+
+
+def check_empty(run: Run) -> None:
+    """F&O 4.2: an empty-sequence operand gives the empty sequence (not modelled in Lean: fixed expectations)"""
+    import elementpath
+    for ver in ('20', '30', '31'):
+        for expr, want in EMPTY_EXPECT:
+            try:
+                got = canon(elementpath.select(None, expr, parser=parser_of(ver), item=1))
+            except elementpath.ElementPathError as e:
+                got = 'ERR:' + (getattr(e, 'code', None) or 'NOCODE').split(':')[-1]
+            except Exception as e:  # noqa
+                got = 'ERR:OTHER:' + type(e).__name__
+            run.stats.count('empty-operand')
+            if got != want:
+                run.disagree(Disagreement({'v': ver, 'expr': expr}, got, None, want, what='empty-operand', site=expr))
 
 
 def search(run: Run):
@@ -700,6 +733,7 @@ def body(run: Run) -> int:
         return run.finish('proof')
     run.prove(['EPV.Props.C06'], ['EPV.Spec.FOArith', 'EPV.Model.Arith'])
     try:
+        check_empty(run)
         correspond(run)
     except DriverError as e:
         run.broken.append('driver:C06 ' + str(e)[:300])
